@@ -27,10 +27,18 @@ RULE = ("fresh interpreters: all 12 first-imports and all 132 ordered pairs exha
 SCRIPT = r"""
 import sys, json, importlib, types, inspect
 order = json.loads(sys.argv[1])
+FORM = sys.argv[2] if len(sys.argv) > 2 else "module"
 steps = []
 for m in order:
     try:
-        importlib.import_module("chartparse." + m)
+        if FORM == "stmt":
+            exec("import chartparse." + m, {})
+        elif FORM == "from":
+            exec("from chartparse import " + m, {})
+        elif FORM == "dunder":
+            __import__("chartparse." + m, fromlist=["*"])
+        else:
+            importlib.import_module("chartparse." + m)
         steps.append("ok")
     except BaseException as e:
         steps.append("fail:" + type(e).__name__)
@@ -115,14 +123,33 @@ def modules():
     return sorted(p.stem for p in (fw.REPO / "chartparse").glob("*.py") if p.stem != "__init__")
 
 
-def run_order(order, flags=()):
-    env = dict(os.environ, PYTHONPATH=str(fw.REPO))
-    p = subprocess.run(["/venv/bin/python", *flags, "-c", SCRIPT, json.dumps(order)], stdout=subprocess.PIPE,
+FORMS = ["module", "stmt", "from", "dunder"]
+
+
+def run_order(order, flags=(), form="module", path=None):
+    # always compile from source (compile-time warnings exist only then): no bytecode is read or written
+    env = dict(os.environ, PYTHONPATH=str(path or fw.REPO), PYTHONDONTWRITEBYTECODE="1", PYTHONPYCACHEPREFIX="/nonexistent/chartparse-verif-no-cache")
+    p = subprocess.run(["/venv/bin/python", *flags, "-c", SCRIPT, json.dumps(order), form], stdout=subprocess.PIPE,
                        stderr=subprocess.PIPE, env=env, timeout=120)
     try:
         return json.loads(p.stdout.decode().strip().splitlines()[-1])
     except Exception:  # noqa: BLE001
         return {"steps": ["fail:crash"], "mods": {}, "stderr": p.stderr.decode()[-400:]}
+
+
+def midx_(mods, o):
+    return mods.index(o[0]) * 5 + mods.index(o[1])
+
+
+def zipped_package(tmp):
+    """the package as a zip archive on sys.path (zipapp / pex style deployment); sources only"""
+    import zipfile
+    z = os.path.join(tmp, "bundle.zip")
+    with zipfile.ZipFile(z, "w") as zf:
+        for p in sorted((fw.REPO / "chartparse").iterdir()):
+            if p.is_file() and not p.name.endswith(".pyc"):
+                zf.write(p, "chartparse/" + p.name)
+    return z
 
 
 def slice(ctx: fw.Ctx) -> fw.Outcome:
@@ -140,8 +167,10 @@ def slice(ctx: fw.Ctx) -> fw.Outcome:
     # reference: chart first (the order the test-suite uses), then everything
     ref_order = ["chart"] + [m for m in mods if m != "chart"]
     ref = run_order(ref_order)
+    # how the import is written is not part of the order: `import chartparse.x`, `from chartparse import x`, importlib, __import__
+    forms = [FORMS[(i + ctx.seed) % 4] if len(o) != 2 else FORMS[(midx_(mods, o) + ctx.seed) % 4] for i, o in enumerate(orders)]
     with ThreadPoolExecutor(ctx.jobs) as ex:
-        results = list(ex.map(run_order, orders))
+        results = list(ex.map(lambda of: run_order(of[0], (), of[1]), zip(orders, forms)))
     midx = {m: i for i, m in enumerate(mods)}
     try:
         model = driver.run([f"imports {','.join(str(midx[m]) for m in o)}" for o in orders])
@@ -150,22 +179,34 @@ def slice(ctx: fw.Ctx) -> fw.Outcome:
         out.notes.append(f"model driver unavailable: {e}")
     out.exhaustive = True  # first imports and ordered pairs are complete
     # the interpreter's own switches are part of "a fresh interpreter": every first import also under -O and -OO
-    flagged = [([m], fl) for fl in (("-O",), ("-OO",)) for m in mods]
-    with ThreadPoolExecutor(ctx.jobs) as ex:
-        fres = list(ex.map(lambda of: run_order(*of), flagged))
-    for (o, fl), r in zip(flagged, fres):
+    flagged = [([m], fl, FORMS[(i + j) % 4], None) for j, fl in enumerate((("-O",), ("-OO",), ("-W", "error"), ("-X", "warn_default_encoding", "-W", "error"), ("-X", "dev", "-W", "error"), ("-B", "-bb"))) for i, m in enumerate(mods)]
+    # every module first, every way of writing the import (4 x 12, complete)
+    flagged += [([m], (), f, None) for f in FORMS[1:] for m in mods]
+    import shutil
+    import tempfile
+    tmp = tempfile.mkdtemp(prefix="chartparse-verif-zip-")
+    try:
+        z = zipped_package(tmp)
+        flagged += [([m], (), FORMS[i % 4], z) for i, m in enumerate(mods)]
+        with ThreadPoolExecutor(ctx.jobs) as ex:
+            fres = list(ex.map(lambda of: run_order(*of), flagged))
+    finally:
+        shutil.rmtree(tmp, ignore_errors=True)
+    for (o, fl, form, zp), r in zip(flagged, fres):
+        fl = tuple(fl) + (("form=" + form,) if form != "module" else ()) + (("zip",) if zp else ())
         ok = all(s_ == "ok" for s_ in r["steps"]) and len(r["steps"]) == len(o)
         unusable = [u for u in r.get("use", []) if u[1] != "ok"]
-        out.case(",".join(o) + fl[0], True, None, tags=["first-import" + fl[0]])
+        out.case(",".join(o) + "".join(fl), True, None, tags=["first-import" + "".join(fl)])
         if not ok or unusable:
-            out.violation("flag-" + fl[0] + o[0], f"python {fl[0]}: first import of chartparse.{o[0]} " + (f"fails ({r['steps'][-1]})" if not ok else f"leaves {unusable[0][0]} unusable: {unusable[0][1]}"),
-                          {"op": "imports", "order": o, "flags": list(fl)}, observed=r["steps"], promised="importable first under any interpreter switches")
-    for o, r, m in zip(orders, results, model):
+            out.violation("flag-" + "".join(fl) + o[0], f"python {' '.join(fl)}: first import of chartparse.{o[0]} " + (f"fails ({r['steps'][-1]})" if not ok else f"leaves {unusable[0][0]} unusable: {unusable[0][1]}"),
+                          {"op": "imports", "order": o, "flags": [x for x in fl if x.startswith("-") or x in ("error", "dev", "warn_default_encoding")], "form": form, "zip": bool(zp)},
+                          observed=r["steps"], promised="importable first under any interpreter switches, import form and package location")
+    for o, r, m, form in zip(orders, results, model, forms):
         key = ",".join(o)
         ok = all(s == "ok" for s in r["steps"]) and len(r["steps"]) == len(o)
         out.case(key, len(o) >= 2, {"order": o, "steps": r["steps"]} if len(o) in (1, 12) else None,
                  tags=[f"len{min(len(o), 4)}", "ok" if ok else "fail"])
-        replay = {"op": "imports", "order": o}
+        replay = {"op": "imports", "order": o, "form": form}
         unusable = [u for u in r.get("use", []) if u[1] != "ok"]
         if not ok:
             out.violation("order-" + key, f"import order {o} fails at step {len(r['steps'])} ({r['steps'][-1]})",
@@ -203,7 +244,16 @@ def slice(ctx: fw.Ctx) -> fw.Outcome:
 
 
 def replay(ctx: fw.Ctx, data: dict):
-    r = run_order(data["order"], tuple(data.get("flags", ())))
+    if data.get("zip"):
+        import shutil
+        import tempfile
+        tmp = tempfile.mkdtemp(prefix="chartparse-verif-zip-")
+        try:
+            r = run_order(data["order"], tuple(data.get("flags", ())), data.get("form", "module"), zipped_package(tmp))
+        finally:
+            shutil.rmtree(tmp, ignore_errors=True)
+    else:
+        r = run_order(data["order"], tuple(data.get("flags", ())), data.get("form", "module"))
     ok = all(s == "ok" for s in r["steps"]) and len(r["steps"]) == len(data["order"])
     unusable = [u for u in r.get("use", []) if u[1] != "ok"]
     return (not ok) or bool(unusable), [r["steps"], unusable[:2]]
